@@ -2118,3 +2118,193 @@ def select_basis_rule(chk, src, rule_co, rule_sort):
                detail="select_basis: " + (probs_co[0] if probs_co else ""))
         chk.ob(rule_sort, f"select_basis[{name}]: the largest values are kept, at most Mmax, no duplicates", not probs_sort, fi.where, probs_sort[:3] or "largest kept", "largest kept", line=fi.node.lineno,
                detail="select_basis must rank candidate vectors by descending singular value and keep at most the limit; otherwise the smallest are kept or the bond exceeds its limit: " + (probs_sort[0] if probs_sort else ""))
+
+
+# ---------------------------------------------------------------------------------------------- ground-state sweep driver
+def single_sweep_rule(chk, src, rule_fresh=None, rule_ofs=None, rule_sites=None):
+    """abstract run of gs.single_sweep on a 4-site state whose methods are event recorders (iter_idx_list and _switch_direction from source): one- and two-site method,
+    both directions, one root and three roots, plain and stacked operator, on-the-fly swapping off / on (with and without the Jordan-Wigner flag), with a stored optimum
+    in the middle of the sweep.  Every event carries the version of the swept state (it advances with every update of the swept state).
+    fresh labels: every renormalised-basis update - of the swept state or of a copy taken from it in the same iteration - receives the block labels computed by the swept
+    state's _get_big_qn for the same sites at the same version; the sector mask of the local problem comes from the same call and the state's total charge; environments
+    are requested for the sites next to the active ones, system side behind the sweep.
+    operator swap: with swapping on, every update of the swept state is followed - before anything else is computed - by the operator's try_swap_site with the state's
+    current model and its Jordan-Wigner flag; copies do not swap the operator again; with swapping off the operator is never swapped."""
+    GS = "renormalizer/mps/gs.py"
+    fi = src.func(GS, "single_sweep")
+    resolve = class_resolver(src, {"Mps": MPS})
+    n = 4
+
+    class Tok(Sym):
+        def __init__(self, name, **kw):
+            super().__init__(name)
+            self.__dict__.update(kw)
+
+    def run(method, to_right, nroots, stacked, ofs, jw):
+        ev = []
+        state = {"version": 0, "copies": 0}
+
+        class St(Sym):
+            def __init__(self, name, parent=None):
+                super().__init__(name)
+                self._cls = "Mps"
+                self.site_num, self.to_right, self.qnidx = n, to_right, (0 if to_right else n - 1)
+                self.optimize_config = Sym("optimize_config", method=method, nroots=nroots, algo="direct")
+                self.compress_config = Sym("compress_config", ofs=ofs, ofs_swap_jw=jw)
+                self.qntot = Tok("qntot")
+                self.model = Tok("model v0")
+                self.parent, self.born = parent, state["version"]
+
+            def __getitem__(self, k):
+                return Tok(f"{self._name}[{k}]")
+
+            def _get_big_qn(self, cidx):
+                t = (self._name, state["version"], tuple(cidx))
+                ev.append(("bigqn",) + t)
+                return Tok("qnbigl", src=t), Tok("qnbigr", src=t), Tok("qnmat", src=t)
+
+            def _update_mps(self, cstruct, cidx, qnbigl, qnbigr, percent=0):
+                ev.append(("update", self._name, self.born if self.parent else state["version"], tuple(cidx), getattr(qnbigl, "src", None), getattr(qnbigr, "src", None),
+                           getattr(qnbigl, "_name", None), getattr(qnbigr, "_name", None), cstruct, percent))
+                if self.parent is None:
+                    state["version"] += 1
+                    if ofs is not None:
+                        self.model = Tok(f"model v{state['version']}")
+                return [Tok(f"averaged{r}") for r in range(nroots)] if nroots > 1 else None
+
+            def copy(self):
+                state["copies"] += 1
+                c = St(f"copy{state['copies']}", parent=self)
+                ev.append(("copy", c._name, state["version"]))
+                return c
+        mps = St("mps")
+
+        class Opr(Sym):
+            def __init__(self, name):
+                super().__init__(name)
+
+            def __getitem__(self, k):
+                return Tok(f"{self._name}[{k}]")
+
+            def try_swap_site(self, model, swap_jw, *a, **k):
+                ev.append(("swap", self._name, getattr(model, "_name", model), swap_jw))
+        if stacked:
+            mpo = Opr("stacked")
+            mpo.mpos = [Opr("part0"), Opr("part1")]
+        else:
+            mpo = Opr("mpo")
+
+        class Env(Sym):
+            def GetLR(self, side, idx, mps_, operator, itensor=None, method="System"):
+                ev.append(("env", side, idx, method, state["version"]))
+                return Tok(f"{side}env")
+        environ = [Env("env0"), Env("env1")] if stacked else Env("env")
+
+        def get_qn_mask(qnmat, qntot):
+            ev.append(("mask", getattr(qnmat, "src", None), getattr(qnmat, "_name", None), getattr(qntot, "_name", None)))
+            return Tok("mask", src=getattr(qnmat, "src", None), shape=(2, 3))
+
+        def eigh_direct(mps_, qn_mask, ltensor, rtensor, cmo, omega):
+            ev.append(("solve", getattr(qn_mask, "src", None)))
+            return Tok("e", tolist=lambda: [0.0] * nroots), Tok("c", mask=getattr(qn_mask, "src", None))
+
+        def cvec2cmat(c, qn_mask, nroots=1):
+            ev.append(("unpack", getattr(qn_mask, "src", None)))
+            return [Tok(f"cstruct{r}") for r in range(nroots)] if nroots > 1 else Tok("cstruct")
+        npx = OpenSym("np", make=lambda t: Blob(t), prod=lambda s: 6, sum=lambda x: 6)
+        last = [1] if method == "1site" else [1, 2]
+        it = SymInterp(src, resolve, {"np": npx, "xp": npx, "logger": Blob("logger"), "asxp": lambda x: x, "asnumpy": lambda x: x, "get_qn_mask": get_qn_mask, "eigh_direct": eigh_direct,
+                                      "cvec2cmat": cvec2cmat, "isinstance": lambda x, t: (t == "StackedMpo" and stacked) or (t == "Mpo" and not stacked), "StackedMpo": "StackedMpo", "Mpo": "Mpo",
+                                      "tensordot": lambda *a, **k: Tok("guess")})
+        it.max_depth = 8
+        it.check_asserts = True
+        res = it.call_function(fi, [mps, mpo, environ, None, Sym("percent"), last])
+        return ev, res, mps, mpo
+
+    for method in ("1site", "2site"):
+        for to_right in (True, False):
+            for nroots, stacked, ofs, jw in ((1, False, None, False), (3, False, None, False), (1, True, None, False), (1, False, Sym("ofs_d"), True), (1, False, Sym("ofs_s"), False),
+                                             (3, False, Sym("ofs_d"), False)):
+                tag = f"single_sweep[{method}, to_right={to_right}, {nroots} root(s){', stacked operator' if stacked else ''}{', swapping on' + (' with Jordan-Wigner flag' if jw else '') if ofs is not None else ''}]"
+                P_f, P_o, P_s = [], [], []
+                try:
+                    ev, res, mps, mpo = run(method, to_right, nroots, stacked, ofs, jw)
+                except SymRaise as e:
+                    P_f.append(f"raises {e}")
+                    ev = None
+                if ev is not None:
+                    # expected active sites
+                    if method == "1site":
+                        want = [[k] for k in (range(n) if to_right else range(n - 1, -1, -1))]
+                    else:
+                        want = [[k, k + 1] for k in range(n - 1)] if to_right else [[k - 1, k] for k in range(n - 1, 0, -1)]
+                    upd_main = [e for e in ev if e[0] == "update" and e[1] == "mps"]
+                    if [list(e[3]) for e in upd_main] != want:
+                        P_s.append(f"sites updated {[list(e[3]) for e in upd_main]}; expected {want}")
+                    version = 0
+                    cur = None            # label computation of the current iteration
+                    pending_swap = None
+                    for e in ev:
+                        if pending_swap is not None and e[0] != "swap":
+                            P_o.append(f"after the update of sites {pending_swap} the next step is {e[0]}, not the operator swap")
+                            pending_swap = None
+                        if e[0] == "env":
+                            cur = None
+                        if e[0] == "bigqn":
+                            if e[1] != "mps":
+                                P_f.append(f"block labels computed from {e[1]}, not from the swept state")
+                            cur = e[1:]
+                        elif e[0] == "mask":
+                            if cur is None or e[1] != cur or e[2] != "qnmat" or e[3] != "qntot":
+                                P_f.append(f"sector mask from ({e[2]} of {e[1]}, {e[3]}); expected the label matrix of this iteration {cur} and the state's total charge")
+                        elif e[0] in ("solve", "unpack"):
+                            if cur is None or e[1] != cur:
+                                P_f.append(f"{'local eigenproblem' if e[0] == 'solve' else 'unpacking of the solution'} uses the mask of {e[1]}; labels of this iteration: {cur}")
+                        elif e[0] == "update":
+                            _, who, ver, cidx, sl, sr, nl, nr, cs, pc = e
+                            if cur is None or sl != cur or sr != cur or (nl, nr) != ("qnbigl", "qnbigr") or tuple(cidx) != cur[2] or ver != cur[1]:
+                                P_f.append(f"{who}._update_mps(sites {list(cidx)}, version {ver}) gets labels ({nl} of {sl}, {nr} of {sr}); expected (qnbigl, qnbigr) of {cur}")
+                            if getattr(pc, "_name", None) != "percent":
+                                P_s.append("percent is not passed to the update")
+                            if who == "mps":
+                                version += 1
+                                if ofs is not None:
+                                    pending_swap = list(cidx)
+                        elif e[0] == "swap":
+                            if ofs is None:
+                                P_o.append("the operator is swapped although on-the-fly swapping is off")
+                            elif pending_swap is None:
+                                P_o.append("an operator swap that does not follow an update of the swept state")
+                            elif e[1] != ("stacked" if stacked else "mpo") or e[2] != f"model v{version}" or e[3] is not jw:
+                                P_o.append(f"{e[1]}.try_swap_site({e[2]}, {e[3]}); expected the operator of the sweep, the state's current model (model v{version}) and its flag {jw}")
+                            pending_swap = None
+                    if pending_swap is not None:
+                        P_o.append(f"no operator swap after the last update (sites {pending_swap})")
+                    # environments: next to the active sites, system side behind the sweep
+                    envs = [e for e in ev if e[0] == "env"]
+                    per = 2 * (2 if stacked else 1)
+                    for i, cidx in enumerate(want):
+                        chunk = envs[i * per:(i + 1) * per]
+                        w = {("L", cidx[0] - 1, "System" if to_right else "Enviro"), ("R", cidx[-1] + 1, "Enviro" if to_right else "System")}
+                        if {(c[1], c[2], c[3]) for c in chunk} != w or any(c[4] != i for c in chunk):
+                            P_s.append(f"iteration {i}: environments {[(c[1], c[2], c[3], c[4]) for c in chunk]}; expected {sorted(w)} of the current state")
+                            break
+                    # stored optimum: copies updated with the same arguments
+                    ups_copy = [e for e in ev if e[0] == "update" and e[1] != "mps"]
+                    if len(ups_copy) != nroots:
+                        P_s.append(f"{len(ups_copy)} updates of stored copies; expected {nroots} (one per root at the stored site)")
+                    if not (isinstance(res, tuple) and len(res) == 3 and res[2] is mpo):
+                        P_s.append("the operator is not returned")
+                    if mps.to_right is to_right:
+                        P_s.append("the direction is not switched at the end of the sweep")
+                if rule_fresh:
+                    chk.ob(rule_fresh, f"{tag}: labels", not P_f, fi.where, P_f[:3] or "fresh", "labels of the same state, sites and version", line=fi.node.lineno,
+                           detail="single_sweep: the renormalised-basis update uses block labels that were not computed from the current state of the same object and sites "
+                                  "(stale mask/labels leak amplitude out of the sector): " + (P_f[0] if P_f else ""))
+                if rule_ofs and (ofs is not None or P_o):
+                    chk.ob(rule_ofs, f"{tag}: operator swap", not P_o, fi.where, P_o[:3] or "paired", "every state-side swap is followed at once by the operator-side swap", line=fi.node.lineno,
+                           detail="single_sweep may swap two sites of the state (on-the-fly swapping) without swapping the operator with the same model and flag: state and Hamiltonian then "
+                                  "refer to different site orders: " + (P_o[0] if P_o else ""))
+                if rule_sites:
+                    chk.ob(rule_sites, f"{tag}: sites and environments", not P_s, fi.where, P_s[:3] or "as specified", "active sites in sweep order, environments next to them", line=fi.node.lineno,
+                           detail="single_sweep: " + (P_s[0] if P_s else ""))
